@@ -134,10 +134,19 @@ class HeartbeatManager(Generic[comms.Hdr]):
         if self._socket.is_connected:
             _LOGGER.debug("Sending heartbeat message")
 
-            await self._socket.send(
-                message=self._config.message,
-                retry_policy=pyairtouch.comms.socket.RETRY_CONNECTED,
-            )
+            try:
+                await self._socket.send(
+                    message=self._config.message,
+                    retry_policy=pyairtouch.comms.socket.RETRY_CONNECTED,
+                )
+            except (
+                pyairtouch.comms.socket.NotOpenError,
+                pyairtouch.comms.socket.QueueOverflowError,
+            ) as ex:
+                # This heartbeat could not be queued (e.g. the message queue is
+                # still full of messages buffered while disconnected). Skip it
+                # rather than ending the heartbeat loop.
+                _LOGGER.debug("Unable to send heartbeat message: %r", ex)
 
     async def _heartbeat_timeout_loop(self) -> None:
         """The heartbeat timeout loop implementation.
